@@ -280,7 +280,17 @@ func (p *Prog) extraObligations(o checkOpts) (obs []*Obligation, notes []string,
 		} else if len(rs) == 1 {
 			ok, detail = rs[0].OK, rs[0].Detail
 		}
-		obs = append(obs, preSolved("bounded.harness."+f[0], "bounded", fmt.Sprintf("%s:%d", shortSpec(r.File), r.Line), "BOUNDED stand-in (real code, exhaustive enumeration): "+desc+" ["+detail+"]", ok, detail, serves))
+		hob := preSolved("bounded.harness."+f[0], "bounded", fmt.Sprintf("%s:%d", shortSpec(r.File), r.Line), "BOUNDED stand-in (real code, exhaustive enumeration): "+desc+" ["+detail+"]", ok, detail, serves)
+		if err == nil {
+			jargs := map[string]string{}
+			for k, v := range args {
+				if k != "strings" {
+					jargs[k] = v
+				}
+			}
+			hob.HarnessPkg, hob.HarnessJob = f[1], &replayJob{ID: f[0], Kind: f[2], Args: jargs}
+		}
+		obs = append(obs, hob)
 		notes = append(notes, "bounded harness "+f[0]+": "+desc+" ["+detail+"]")
 	}
 	_ = json.Marshal
